@@ -1,6 +1,6 @@
 //! C05 -- every user-type reference is resolved per AIDL scoping, or reported unknown (partial, see DESIGN.md).
 use crate::common::*;
-use crate::c15::{mk_type, mk_spine, ref_type, Seq, CAP};
+use crate::c15::{mk_type, mk_spine, Seq, CAP};
 use crate::c08::in_position;
 use aidl_parser::ast;
 use aidl_parser::verif_hooks::traverse as vt;
@@ -8,65 +8,47 @@ use aidl_parser::verif_hooks::validation as v;
 use std::collections::{HashMap, HashSet};
 use std::hash::RandomState;
 
-fn count_and_check_marks(t: &ast::Type, n: &mut usize) {
-    *n += 1;
-    assert!(t.full_range.start.offset == 7001, "every type node, at any depth, is offered to the resolver exactly once");
-    let mut i = 0;
-    while i < t.generic_types.len() { count_and_check_marks(&t.generic_types[i], n); i += 1; }
-}
-
 macro_rules! mut_walk_body {
     ($mk:ident, $depth:expr, $n:expr, $pos:expr) => {{
         let c: [u8; $n] = kani::any();
         let mut cur = 0usize; let mut id = 100usize;
-        let t = $mk(&c, &mut cur, $depth, &mut id);
+        let mut exp = Seq::new();
+        let t = $mk(&c, &mut cur, $depth, &mut id, &mut exp);
+        let nodes = exp.n + if $pos == 1 { 1 } else { 0 };      // argument position: the void return type is a type node too
         let mut a = in_position(t, $pos);
         let mut calls = 0usize;
-        // the closure marks the node it is given: full_range offset 7000 + number of visits
+        let mut twice = false;
+        // the closure marks the node it is given (full-range offset 7000): a second visit of a marked node is detected
         vt::walk_types_mut(&mut a, |t: &mut ast::Type| {
             calls += 1;
-            let seen = if t.full_range.start.offset >= 7000 { t.full_range.start.offset - 7000 } else { 0 };
-            t.full_range.start.offset = 7001 + seen;
+            if t.full_range.start.offset == 7000 { twice = true; }
+            t.full_range.start.offset = 7000;
         });
-        let mut nodes = 0usize;
-        match &a.item {
-            ast::Item::Interface(it) => match &it.elements[0] {
-                ast::InterfaceElement::Method(m) => {
-                    count_and_check_marks(&m.return_type, &mut nodes);
-                    let mut j = 0; while j < m.args.len() { count_and_check_marks(&m.args[j].arg_type, &mut nodes); j += 1; }
-                }
-                ast::InterfaceElement::Const(k) => count_and_check_marks(&k.const_type, &mut nodes),
-            },
-            ast::Item::Parcelable(p) => match &p.elements[0] {
-                ast::ParcelableElement::Field(f) => count_and_check_marks(&f.field_type, &mut nodes),
-                ast::ParcelableElement::Const(k) => count_and_check_marks(&k.const_type, &mut nodes),
-            },
-            _ => (),
-        }
-        assert!(calls == nodes, "the resolver is called once per type node");
+        assert!(!twice, "no type node is offered to the resolver twice");
+        assert!(calls == nodes, "every type node, at any depth, is offered to the resolver exactly once");
         kani::cover!(nodes >= 4, "nested types present");
         std::mem::forget(a);
     }};
 }
 
 #[kani::proof]
-#[kani::unwind(9)]
+#[kani::unwind(4)]
 fn c05_walk_mut_return_d2() { mut_walk_body!(mk_type, 2, 7, 0) }
 
 #[kani::proof]
-#[kani::unwind(9)]
+#[kani::unwind(4)]
 fn c05_walk_mut_arg_d2() { mut_walk_body!(mk_type, 2, 7, 1) }
 
 #[kani::proof]
-#[kani::unwind(9)]
+#[kani::unwind(4)]
 fn c05_walk_mut_field_d2() { mut_walk_body!(mk_type, 2, 7, 3) }
 
 #[kani::proof]
-#[kani::unwind(9)]
+#[kani::unwind(4)]
 fn c05_walk_mut_const_d2() { mut_walk_body!(mk_type, 2, 7, 2) }
 
 #[kani::proof]
-#[kani::unwind(9)]
+#[kani::unwind(5)]
 fn c05_walk_mut_spine_d3() { mut_walk_body!(mk_spine, 3, 4, 0) }
 
 fn all_builtin(k: u8) -> ast::AndroidTypeKind {
